@@ -12,6 +12,12 @@ func slogPkg() *packages.Package { return pSlog }
 
 func containsText(n ast.Node, text string) bool { return strings.Contains(src(n), text) }
 
+// containsNorm: the same with all white space removed on both sides
+func containsNorm(n ast.Node, text string) bool {
+	sq := func(t string) string { return strings.Join(strings.Fields(t), "") }
+	return strings.Contains(sq(src(n)), sq(text))
+}
+
 func targets() []*target {
 	return []*target{
 		{pkg: slogPkg, recv: "Level", fn: "Enabled", coq: "enabled", fallback: "Level.enabled_code",
@@ -292,6 +298,46 @@ func targets() []*target {
 			params: []string{"(g_hex : bytes)", "(m_safeSet : list (Z * bool))", "(s_jsonMode : bool)", "(s_buf : bytes)", "(str : bytes)"},
 			result: "option bytes", final: "Some (s_buf)"},
 
+		// ---- the logger tree (C10): Entry.newChildLogger and the inheritance at the head of newentry ----
+		// a *Entry is a reference (eref); the arguments are gargs (string / option / handler / other: the type
+		// assertions are oracles); the random name and newentry itself are parameters: the theorem shows WHICH
+		// name is looked up among the receiver's direct children and WITH WHAT newentry is called
+		{pkg: slogPkg, recv: "Entry", fn: "newChildLogger", coq: "new_child", file: "Loggers", strict: true, fallback: "TreeRef.new_child_ref",
+			comment: "(returns (child, s.items); None = panic)", panicT: "None", retfmt: "Some (%s)", effects: []string{"s_items"},
+			tymap: map[string]string{"*Entry": "eref", "[]any": "list garg", "any": "garg"}, nils: map[string]string{"eref": "eref_nil"},
+			calls: map[string]callSpec{
+				"*Entry.randomChildName": {pure: "rnd_name"},
+				"newentry":               {pure: "f_newentry %0 %1", spread: true},
+			},
+			params: []string{"(as_string_of_any : garg -> option bytes)", "(rnd_name : bytes)", "(f_newentry : eref -> list garg -> eref)",
+				"(s : eref)", "(s_items : gomapB eref)", "(args : list garg)"},
+			result: "option (eref * gomapB eref)", final: "None"},
+		{pkg: slogPkg, recv: "", fn: "newentry", coq: "child_defaults", file: "Loggers", strict: true, fallback: "TreeRef.child_defaults_ref",
+			comment: "(the first two statements: what a new logger starts with)",
+			opaque: map[string]string{"parent != nil": "p_present", "parent.useJSON": "p_useJSON", "parent.useColor": "p_useColor",
+				"parent.Level()": "p_level", "GetLevel()": "g_deflevel"},
+			from: func(stmts []ast.Stmt) []ast.Stmt {
+				if len(stmts) < 3 || !containsText(stmts[0], "GetLevel()") || !containsText(stmts[1], "parent.useJSON") {
+					return nil
+				}
+				// .. and the struct literal must take exactly these three
+				if !containsNorm(stmts[2], "useColor: color") || !containsNorm(stmts[2], "useJSON: js") || !containsNorm(stmts[2], "level: level") {
+					return nil
+				}
+				return stmts[0:2]
+			},
+			params: []string{"(p_present p_useJSON p_useColor : bool)", "(p_level g_deflevel : Z)"},
+			result: "bool * bool * Z", final: "(js, color, level)"},
+
+		// ---- the derived log/slog handlers (C15): handler4LogSlog.with.  s.ops is a slice of HEAP cells
+		// (array, offset, length, capacity) and heap_ the arrays, so that sharing of a backing array between the
+		// handlers derived from one parent is expressible ----
+		{pkg: slogPkg, recv: "handler4LogSlog", fn: "with", coq: "handler_with", file: "Handlers", strict: true, fallback: "AdaptRef.handler_with_ref",
+			comment: "(returns (the new handler, the heap); None = panic)", panicT: "None", retfmt: "Some (%s)", effects: []string{"heap_"},
+			tymap:  map[string]string{"[]handlerOp": "hslice", "handlerOp": "hop", "handler4LogSlog": "hnd", "*handler4LogSlog": "hnd", "Logger": "lgr"},
+			params: []string{"(h_zero : hop)", "(f_growcap : nat -> nat)", "(s_Logger : lgr)", "(s_ops : hslice)", "(op : hop)", "(heap_ : heap hop)"},
+			result: "option (hnd * heap hop)", final: "None"},
+
 		// ---- RegisterLevel (C17): the options arrive resolved (the regPack fields after every opt ran: o_*);
 		// the seven tables are the state the function hands back; a map write overwrites (mapZ_set / mapB_set) ----
 		{pkg: slogPkg, recv: "", fn: "RegisterLevel", coq: "register", file: "Registry", strict: true, fallback: "RegRef.register_ref",
@@ -353,12 +399,15 @@ func bufT(fn, coq string, params []string, result, final string, eff bool) *targ
 		opaque: map[string]string{"io.EOF": "EEOF", "errUnreadByte": "EUnreadByte", "io.ErrShortWrite": "EShortWrite", "ErrTooLarge": "p_toolarge", "errNegativeRead": "p_negread"},
 		params: append([]string{"(s_buf : gslice)", "(s_off s_lastRead : Z)"}, params...), result: result, final: final,
 		calls: map[string]callSpec{
-			"*PrintCtx.empty":         {pure: "buf_empty s_buf s_off s_lastRead"},
-			"*PrintCtx.Len":           {pure: "buf_len s_buf s_off s_lastRead"},
-			"*PrintCtx.Reset":         {state: "buf_reset s_buf s_off s_lastRead", bres: true, sub: []string{"s_buf", "s_off", "s_lastRead"}},
-			"errors.New":              {pure: "EUnreadRune"},
-			"utf8.DecodeRune":         {res: "decode_rune_z (sl_bytes %0)"},
-			"utf8.DecodeRuneInString": {res: "decode_rune_z %0"},
+			"*PrintCtx.empty":            {pure: "buf_empty s_buf s_off s_lastRead"},
+			"*PrintCtx.Len":              {pure: "buf_len s_buf s_off s_lastRead"},
+			"*PrintCtx.Reset":            {state: "buf_reset s_buf s_off s_lastRead", bres: true, sub: []string{"s_buf", "s_off", "s_lastRead"}},
+			"errors.New":                 {pure: "EUnreadRune"},
+			"*PrintCtx.tryGrowByReslice": {state: "buf_try_grow s_buf s_off s_lastRead %0", bres: true, sub: []string{"s_buf", "s_off", "s_lastRead"}},
+			"*PrintCtx.grow":             {state: "buf_grow_int s_buf s_off s_lastRead f_isnil f_growSlice %0", bres: true, sub: []string{"s_buf", "s_off", "s_lastRead"}},
+			"growSlice":                  {state: "f_growSlice %0 %1", bres: true},
+			"utf8.DecodeRune":            {res: "decode_rune_z (sl_bytes %0)"},
+			"utf8.DecodeRuneInString":    {res: "decode_rune_z %0"},
 		}}
 	if eff {
 		t.effects = []string{"s_buf", "s_off", "s_lastRead"}
@@ -372,6 +421,9 @@ func bufT(fn, coq string, params []string, result, final string, eff bool) *targ
 			st = "(s_buf, s_off, s_lastRead, tr_)"
 			t.calls["io.Writer.Write"] = callSpec{res: "(w_m, w_e)", ev: "sl_bytes %0"}
 			t.nilTest = map[string]string{"err": "err_is_enil"}
+		}
+		if fn == "grow" {
+			t.nilTest = map[string]string{"gslice": "f_isnil"}
 		}
 		t.panicT, t.panicFmt, t.okfmt = "BRange "+st, "BPanic %s "+st, "BOk (%s) %s"
 		t.final = "BOk tt " + st
@@ -409,6 +461,8 @@ var genFiles = [][2]string{
 	{"Escapes", "Require Import Verif.Model.Base Verif.Model.Decision Verif.Model.GoSem Verif.Model.Utf8 Verif.Model.EscRef."},
 	{"Buffers", "Require Import Verif.Model.Base Verif.Model.Decision Verif.Model.GoSem Verif.Model.Utf8 Verif.Model.Buffer Verif.Model.BufRef."},
 	{"Registry", "Require Import Verif.Model.Base Verif.Model.Decision Verif.Model.Dec Verif.Model.GoSem Verif.Model.Level Verif.Model.RegRef."},
+	{"Loggers", "Require Import Verif.Model.Base Verif.Model.Decision Verif.Model.GoSem Verif.Model.TreeRef."},
+	{"Handlers", "Require Import Verif.Model.Base Verif.Model.Decision Verif.Model.GoSem Verif.Model.AdaptRef."},
 	{"LevelNames", "Require Import Verif.Model.Base Verif.Model.Decision Verif.Model.Dec Verif.Model.GoSem Verif.Model.LevelRef."},
 }
 
